@@ -125,3 +125,20 @@ W.lemma(
 
 W.lemma("lemma_len_revi", vars=dict(s=SEQ(INT)), goal="len(revi(s)) == len(s)",
         ih=[dict(at=dict(s="s[:-1]"), measure="len(s)", when="len(s) > 0")], hints=["unfold(revi(s))"], fuel=0, props=["C15", "C17"])
+
+# ---- the two decompressors are the alphabet decoder at the live alphabets
+W.contract(
+    "vyxal/helpers.py::uncompress_num",
+    params=dict(num=STR), result=INT,
+    abstract_globals={},
+    ensures=["result == horner(idxs(num, vyxal.encoding.codepage_number_compress), len(vyxal.encoding.codepage_number_compress))"],
+    props=["C15"],
+)
+
+W.contract(
+    "vyxal/helpers.py::uncompress_str",
+    params=dict(string=STR), result=STR,
+    requires=["horner(idxs(string, vyxal.encoding.codepage_string_compress), len(vyxal.encoding.codepage_string_compress)) >= 0"],
+    ensures=["result == chars_at(digitsM(horner(idxs(string, vyxal.encoding.codepage_string_compress), len(vyxal.encoding.codepage_string_compress)), 27), vyxal.encoding.base_27_alphabet)"],
+    props=["C15"],
+)
